@@ -137,9 +137,26 @@ theorem rearmWaiter_TMid {c : Nat} {d : DB} (w : Waiter) (h : TMid c d) : TMid c
   have := (rearmWaiter_qAt x _ d w ⟨h.kn, rfl⟩).2
   rw [this]; exact h.qu x
 
+theorem wake_answered_ge (x : Rid) (db : DB) (k : Key) (out : List Reply) : answered x out ≤ answered x (wake db k out).2.2 := by
+  obtain ⟨more, hm⟩ := wake_out db k out
+  rw [hm, answered_append]
+  have := answered_nonneg' x more
+  omega
+
+/-- `doTimeOut` answers the request it fires (and, since the C04 fix, possibly grants others in its wake pass) -/
+theorem fireTimeout_answered_ge (db : DB) (key : Nat) (w : Waiter) : 1 ≤ answered w.rid (fireTimeout db key w).2 := by
+  unfold fireTimeout
+  simp only []
+  refine Int.le_trans ?_ (wake_answered_ge _ _ _ _)
+  rw [answered_mk w.rid _ _ _ _ (by decide)]
+  have e : ((({ w.cmd with conn := w.conn } : Cmd).conn), ({ w.cmd with conn := w.conn } : Cmd).req) = w.rid := rfl
+  rw [e]; simp [hit]
+
 theorem fireTimeout_TMid {c : Nat} {d : DB} (key : Nat) (w : Waiter) (hm : w ∈ (d.getKey key).waiters) (h : TMid c d) :
     TMid c (fireTimeout d key w).1 := by
-  refine ⟨h.now, h.tc, KN_fireTimeout _ _ _ h.kn, h.kw.of_sub (fun _ _ hw => fireTimeout_waitAt_sub hw), ?_⟩
+  have hc := clock_fields (clock_fireTimeout d key w)
+  refine ⟨by rw [hc.1]; exact h.now, by rw [hc.2.1]; exact h.tc, KN_fireTimeout _ _ _ h.kn,
+    h.kw.of_sub (fun _ _ hw => fireTimeout_waitAt_sub hw), ?_⟩
   intro x
   have h1 := fireTimeout_cons x d key w hm h.kn
   have h2 := answered_nonneg' x (fireTimeout d key w).2
@@ -224,12 +241,8 @@ theorem fireTimeoutStep_good (c : Nat) (w : Waiter) (rest : List Waiter) (acc : 
         rw [h3] at hx
         have hp := queued_pos_of_waitAt hx
         have hc := fireTimeout_cons w.rid acc.1 w.cmd.key w' hm h1.kn
-        have ha : answered w.rid (fireTimeout acc.1 w.cmd.key w').2 = 1 := by
-          have : (fireTimeout acc.1 w.cmd.key w').2 =
-              [mkReply { w'.cmd with conn := w'.conn } RESULT_TIMEOUT (acc.1.getKey w.cmd.key).locked 0] := rfl
-          rw [this, answered_mk w.rid _ _ _ _ (by decide)]
-          have e : ((({ w'.cmd with conn := w'.conn } : Cmd).conn), ({ w'.cmd with conn := w'.conn } : Cmd).req) = w'.rid := rfl
-          rw [e, hrid]; simp [hit]
+        have ha : 1 ≤ answered w.rid (fireTimeout acc.1 w.cmd.key w').2 := by
+          rw [← hrid]; exact fireTimeout_answered_ge _ _ _
         have := h1.qu w.rid
         omega
       · exact Or.inr h3
